@@ -41,12 +41,15 @@ def parseRat? (s : String) : Option Rat :=
 def totalMem : Int := 2^62
 
 /-- `generateStatFor`: the read view of a rule with `StatIntervalInMs = iv` over the default node geometry;
-    `none` = a standalone statistic would be created (not modelled: never generated) or the parameters are illegal -/
-def viewOf (iv : Nat) : Option (Nat × Nat) :=
-  if iv = 0 ∨ iv = 1000 then some (2, 1000)
+    the flag says that a standalone statistic is created; `none` = illegal parameters -/
+def viewOf (iv : Nat) : Option (Nat × Nat × Bool) :=
+  if iv = 0 ∨ iv = 1000 then some (2, 1000, false)
   else
     let sc := if iv > nodeN * nodeL then 1 else if iv < nodeL then 1 else if iv % nodeL = 0 then iv / nodeL else 1
-    if validView sc iv nodeN (nodeN * nodeL) = 0 then some (sc, iv) else none
+    match validView sc iv nodeN (nodeN * nodeL) with
+    | 0 => some (sc, iv, false)      -- a view of the resource's global statistic
+    | 3 => some (sc, iv, true)       -- not reusable: the rule gets a `BucketLeapArray(sc, iv)` of its own
+    | _ => none
 
 structure St (α : Type) where
   sys : Sys α := {}
@@ -79,23 +82,24 @@ def step {α} [Carrier α] (parseT : String → Option α) (neg : α → Bool)
         ({ s with sys := sys', ns := after, now := after / 1000000 }, some (showRes r))
       | none => (s, some "bad-op")
   | ["soak", _, _, _, _, _, _] => (s, some "cap=ok")
+  | ["companion", _] => (s, none)     -- a generous Direct+Reject rule listed before/after the adaptive one: never decides
   | ["load", "wu", T, p, cf, iv] => match parseT T, p.toNat?, cf.toNat?, iv.toNat? with
       | some T, some p, some cf, some iv =>
         match viewOf iv with
         | none => (s, some "bad-op")
-        | some (sc, Iv) =>
+        | some (sc, Iv, sa) =>
           -- `IsValidRule`: negative threshold, zero period, cold factor 1 are rejected (the rule is dropped)
           let valid := !(neg T || p = 0 || cf = 1)
-          ({ s with sys := loadRule s.sys s.now (.wu T p cf iv) q valid sc Iv, loaded := true }, some (if valid then "ok 1" else "ok 0"))
+          ({ s with sys := loadRuleG s.sys s.now (.wu T p cf iv) q valid sc Iv sa, loaded := true }, some (if valid then "ok 1" else "ok 0"))
       | _, _, _, _ => (s, some "bad-op")
   | ["load", "ma", lt, ht, lm, hm, iv] => match lt.toInt?, ht.toInt?, lm.toInt?, hm.toInt?, iv.toNat? with
       | some lt, some ht, some lm, some hm, some iv =>
         match viewOf iv with
         | none => (s, some "bad-op")
-        | some (sc, Iv) =>
+        | some (sc, Iv, sa) =>
           let m : MemCfg := { lowT := lt, highT := ht, lowM := lm, highM := hm }
           let valid := m.valid totalMem
-          ({ s with sys := loadRule s.sys s.now (.ma m iv) q valid sc Iv, loaded := true }, some (if valid then "ok 1" else "ok 0"))
+          ({ s with sys := loadRuleG s.sys s.now (.ma m iv) q valid sc Iv sa, loaded := true }, some (if valid then "ok 1" else "ok 0"))
       | _, _, _, _, _ => (s, some "bad-op")
   | ["mem", x] => match x.toInt? with
       | some x => ({ s with sys := { s.sys with mem := x } }, none)
@@ -103,7 +107,7 @@ def step {α} [Carrier α] (parseT : String → Option α) (neg : α → Bool)
   | ["req", n, b] => match n.toNat?, b.toNat? with
       | some n, some b =>
         if s.sys.behav.isSome && s.sys.rule.isSome then (s, some "bad-op") else    -- throttled rules are exercised with `probe`
-        let (sys', k) := reqs s.sys s.now b n
+        let (sys', k) := reqsG s.sys s.now b n
         ({ s with sys := sys' }, some (toString k))
       | _, _ => (s, some "bad-op")
   | ["sum"] => match s.sys.arr with
@@ -144,15 +148,18 @@ def oracleReq (s : OSt) (n b k : Nat) : OSt × String :=
   match sys0.arr with
   | none => (s, "?")
   | some a =>
+    let ra := sys0.own.getD a        -- the statistic the rule reads
     let commit (tk : Tok) : OSt :=
       let a1 := if k > 0 then (addAt a s.now (evBucket .pass (k * b))).1 else a
       let a2 := if k < n then (addAt a1 s.now (evBucket .block ((n - k) * b))).1 else a1
-      { s with sys := { sys0 with arr := some a2, tok := tk }, lastPass := if k > 0 then some s.now else s.lastPass }
+      -- the rule's own statistic (if any) is fed with the passes only
+      let own' := if k > 0 then sys0.own.map fun o => (addAt o s.now (evBucket .pass (k * b))).1 else sys0.own
+      { s with sys := { sys0 with arr := some a2, tok := tk, own := own' }, lastPass := if k > 0 then some s.now else s.lastPass }
     if k > n then (commit sys0.tok, "bad admitted-more-than-requested") else
     match sys0.rule with
     | none => (commit sys0.tok, if k = n then "ok" else "bad blocked-without-rule")
     | some (.adaptive m, _, Iv) =>
-      let W := vSum a Iv s.now .pass
+      let W := vSum ra Iv s.now .pass
       let thr : Rat := memAllowed m sys0.mem
       let lo := fit (thr * (1 - eps)) W b n
       let hi := fit (thr * (1 + eps)) W b n
@@ -164,13 +171,14 @@ def oracleReq (s : OSt) (n b k : Nat) : OSt × String :=
         else "bad adaptive-threshold"
       (commit sys0.tok, r)
     | some (.warmup c, sc, Iv) =>
-      let W := vSum a Iv s.now .pass
-      let tk := sync c sys0.tok s.now (prevQps a sc Iv s.now)
+      let W := vSum ra Iv s.now .pass
+      let tk := sync c sys0.tok s.now (prevQps ra sc Iv s.now)
       let nan := Known.degenerateNaN c
       let total : Rat := ((W + k * b : Nat) : Rat)
       let idle : Bool := match s.lastPass with
         | none => true
-        | some t => decide (t + (max (idleSecs c) (Iv / 1000 + 2)) * 1000 ≤ s.now)
+        -- idle = nothing admitted for the refill time and for everything the previous-window read can still see (window + one view bucket)
+        | some t => decide (t + (max (idleSecs c) ((Iv + Iv / sc) / 1000 + 2)) * 1000 ≤ s.now)
       -- the threshold in force is observably below T: a request was refused although it would have fitted under T
       let notFull : Bool := decide (k < n) && decide (((W + (k + 1) * b : Nat) : Rat) ≤ c.T)
       -- sustained demand: run of consecutive seconds each bringing more than T single-token requests (any offsets); the run is
@@ -218,7 +226,7 @@ def oracleProbe (s : OSt) (b : Nat) (res : String) : OSt × String :=
   let sys0 := s.sys.touch s.now
   match sys0.arr, sys0.rule, sys0.behav with
   | some a, some (cl, _, Iv), some maxQ =>
-    let (tk, thr) := threshold sys0 a s.now
+    let (tk, thr) := threshold sys0 (sys0.own.getD a) s.now
     let rt := toks res
     let w : Option Nat := match rt with
       | ["pass"] => some 0
@@ -227,7 +235,8 @@ def oracleProbe (s : OSt) (b : Nat) (res : String) : OSt × String :=
     let wellFormed := w.isSome || res = "block"
     let after := s.ns + w.getD 0
     let a' := (addAt a (after / 1000000) (if w.isSome then evBucket .pass b else evBucket .block b)).1
-    let s' := { s with sys := { sys0 with arr := some a', tok := tk }, ns := after, now := after / 1000000,
+    let own' := if w.isSome then sys0.own.map fun o => (addAt o (after / 1000000) (evBucket .pass b)).1 else sys0.own
+    let s' := { s with sys := { sys0 with arr := some a', tok := tk, own := own' }, ns := after, now := after / 1000000,
                        lastAdm := if w.isSome then ((s.ns : Int) + (w.getD 0 : Nat)) else s.lastAdm }
     let nanRegion := match cl with | .warmup c => Known.degenerateNaN c | _ => false
     let verdict :=
@@ -263,6 +272,7 @@ def ostep (s : OSt) (ts0 : List String) (line : String) : OSt × Option String :
         if s.sys.behav.isNone || s.sys.rule.isNone then (s, some "bad-op") else
         let (s', r) := oracleProbe s b res; (s', some r)
       | none => (s, some "bad-op")
+  | ["companion", _] => (s, none)
   | ["soak", _, _, _, _, _, _] =>
       -- concurrent memory-gauge updates against sequential requests: every threshold the calculator can return lies in
       -- [highT, lowT] (`finite_nonneg`), so one window never admits more than `LowMemUsageThreshold` (`adaptive_admission_under_cap`)
@@ -271,10 +281,10 @@ def ostep (s : OSt) (ts0 : List String) (line : String) : OSt × Option String :
       | some T, some p, some cf, some iv =>
         match viewOf iv with
         | none => (s, some "bad-op")
-        | some (sc, Iv) =>
+        | some (sc, Iv, sa) =>
           let valid := !(decide (T < 0) || p = 0 || cf = 1)
           -- the claims are judged against the latest loaded rule
-          let sys' := loadRule s.sys s.now (.wu T p cf iv) q valid sc Iv
+          let sys' := loadRuleG s.sys s.now (.wu T p cf iv) q valid sc Iv sa
           let kept := valid && (match s.sys.bound with | some b => b.same (.wu T p cf iv) && s.sys.behav == q | none => false)
           let s' := { s with sys := sys', loaded := true, period := p, sat := none, dsec := 0, dcnt := 0, lastAdm := if kept then s.lastAdm else 0 }
           (s', some (if res = (if valid then "ok 1" else "ok 0") then "ok" else "bad rule-validity"))
@@ -283,10 +293,10 @@ def ostep (s : OSt) (ts0 : List String) (line : String) : OSt × Option String :
       | some lt, some ht, some lm, some hm, some iv =>
         match viewOf iv with
         | none => (s, some "bad-op")
-        | some (sc, Iv) =>
+        | some (sc, Iv, sa) =>
           let m : MemCfg := { lowT := lt, highT := ht, lowM := lm, highM := hm }
           let valid := m.valid totalMem
-          let sys' := loadRule s.sys s.now (.ma m iv) q valid sc Iv
+          let sys' := loadRuleG s.sys s.now (.ma m iv) q valid sc Iv sa
           let kept := valid && (match s.sys.bound with | some b => b.same (.ma m iv) && s.sys.behav == q | none => false)
           let s' := { s with sys := sys', loaded := true, sat := none, dsec := 0, dcnt := 0, lastAdm := if kept then s.lastAdm else 0 }
           (s', some (if res = (if valid then "ok 1" else "ok 0") then "ok" else "bad rule-validity"))
